@@ -33,6 +33,11 @@ class ChunkParser:
         self.chunk: bytes = b''  # Partial chunk received
         # Expected size of next following chunk
         self.size: Optional[int] = None
+        # True while CRLF terminating the previous chunk data is pending
+        self._skip_crlf: bool = False
+        # True once last-chunk has been received.  Lines that follow,
+        # up to and including the first blank line, are trailers.
+        self._in_trailer: bool = False
 
     def parse(self, raw: memoryview) -> memoryview:
         more = len(raw) > 0
@@ -46,27 +51,43 @@ class ChunkParser:
             # in case chunk size without CRLF was received
             raw = self.chunk + raw
             self.chunk = b''
+            # Consume CRLF which terminates the previous chunk data
+            if self._skip_crlf:
+                if len(raw) < len(CRLF):
+                    self.chunk = raw
+                    return False, memoryview(b'')
+                if raw[:len(CRLF)] != CRLF:
+                    raise ValueError('Chunk data must be followed by CRLF')
+                raw = raw[len(CRLF):]
+                self._skip_crlf = False
             # Extract following chunk data size
             line, raw = find_http_line(raw)
-            # CRLF not received or Blank line was received.
-            if line is None or line.strip() == b'':
+            # CRLF not received
+            if line is None:
                 self.chunk = raw
                 raw = b''
+            elif self._in_trailer:
+                # Blank line terminates the (possibly empty) trailer section
+                if line == b'':
+                    self._in_trailer = False
+                    self.state = chunkParserStates.COMPLETE
             else:
-                self.size = int(line, 16)
-                self.state = chunkParserStates.WAITING_FOR_DATA
+                # Ignore chunk extensions, if any
+                size = int(line.split(b';', 1)[0].strip(), 16)
+                if size == 0:
+                    self._in_trailer = True
+                else:
+                    self.size = size
+                    self.state = chunkParserStates.WAITING_FOR_DATA
         elif self.state == chunkParserStates.WAITING_FOR_DATA:
             assert self.size is not None
             remaining = self.size - len(self.chunk)
             self.chunk += raw[:remaining]
             raw = raw[remaining:]
             if len(self.chunk) == self.size:
-                raw = raw[len(CRLF):]
                 self.body += self.chunk
-                if self.size == 0:
-                    self.state = chunkParserStates.COMPLETE
-                else:
-                    self.state = chunkParserStates.WAITING_FOR_SIZE
+                self.state = chunkParserStates.WAITING_FOR_SIZE
+                self._skip_crlf = True
                 self.chunk = b''
                 self.size = None
         return len(raw) > 0, memoryview(raw)
